@@ -89,6 +89,10 @@ for name, g in sorted(groups.items()):
                                                existing_suite_fail_lines_with_patch=r0.get("suite_fail_lines", "not re-run (author ran it)"),
                                                note="suite failures listed here are load-dependent flaky tests (quota preemption / placeholder timeout / pkg/scheduler/tests / events) that also fail intermittently on the unchanged tree"),
                         check_history=hist, checks_now=now)
+        if old.get("rebased"):
+            meta_out["rebased"] = old["rebased"]
+        if os.path.exists(os.path.join(src, "patch.orig.diff")):
+            shutil.copyfile(os.path.join(src, "patch.orig.diff"), os.path.join(d, "patch.orig.diff"))
     json.dump(meta_out, open(os.path.join(d, "meta.json"), "w"), indent=1)
 
 rows = list(notconf)
